@@ -460,6 +460,70 @@ def _h_client(world: World) -> None:
     _sweep(world, "client-" + state, scn, _x_client)
 
 
+# ================================================================================================ path: async UDP client
+def _x_udp_client(world: World, scn: dict, cancel_at: int | None) -> int:
+    import socket as _s
+
+    from easynetwork.clients.async_udp import AsyncUDPNetworkClient
+    from easynetwork.protocol import DatagramProtocol
+
+    from vsim.sock import SimSocket
+
+    ctx = Ctx(world, cancel_at)
+    net = ctx.net
+    path = "udp-client-" + scn["state"]
+
+    async def main() -> None:
+        sock = SimSocket(net, _s.AF_INET, _s.SOCK_DGRAM, 0, "udp")
+        net.bind(sock, ("127.0.0.1", 0))
+        sock.connect(("127.0.0.1", 9999))
+        client = AsyncUDPNetworkClient(sock, DatagramProtocol(StringLineSerializer()), backend=ctx.backend)
+        await client.wait_connected()
+        senders = []
+        if scn["state"] == "sending":
+            sock.dgram_send_room = 0  # the kernel send buffer is full: sendto() -> EAGAIN, asyncio queues the datagrams
+
+            async def send(i: int) -> None:
+                try:
+                    await client.send_packet("d%d" % i * scn["pending"])
+                except (OSError, asyncio.CancelledError, Exception):
+                    pass
+
+            for i in range(scn["nsenders"]):
+                senders.append(asyncio.get_running_loop().create_task(send(i), name=f"sender{i}"))
+            await asyncio.sleep(scn["pre"] / 64)
+            if cancel_at is None:
+                # base run: a graceful close waits for queued datagrams, so the buffer must drain eventually
+                ctx.w.after(0.5, lambda: setattr(sock, "dgram_send_room", None))
+        await ctx.close_under_sweep(client.aclose)
+        await ctx.settle()
+        if ctx.outcome == "not-started":
+            sock.dgram_send_room = None
+            await client.aclose()
+            await ctx.settle()
+        if ctx.outcome.startswith("exc:"):
+            raise _fail(path, "close-raised", f"aclose() ended with {ctx.outcome}", scn, cancel_at, site=ctx.outcome[4:])
+        if not sock.sim_closed:
+            raise _fail(path, "socket-open", f"socket still open after aclose() ended with {ctx.outcome}", scn, cancel_at, site="cancelled" if ctx.outcome == "cancelled" else "returned")
+        if not client.is_closing():
+            raise _fail(path, "is-closing", f"is_closing() is False after aclose() ended with {ctx.outcome}", scn, cancel_at)
+        if not await ctx.second_close_is_prompt(client.aclose):
+            raise _fail(path, "second-close-slow", "second aclose() did not return promptly", scn, cancel_at)
+        for t in senders:
+            await asyncio.wait([t], timeout=5)
+            if not t.done():
+                raise _fail(path, "task-stranded", f"task {t.get_name()} never finished after the close", scn, cancel_at)
+
+    _run(ctx, main, path, scn)
+    return ctx.J
+
+
+def _h_udp_client(world: World) -> None:
+    state = world.pick("state", ["idle", "sending"])
+    scn = {"state": state, "pending": world.pick("pending", [1, 50]), "nsenders": 1 + world.choose("nsenders", 2), "pre": world.choose("pre", 3)}
+    _sweep(world, "udp-client-" + state, scn, _x_udp_client)
+
+
 # ================================================================================================ path: server-side client
 def _x_server_client(world: World, scn: dict, cancel_at: int | None) -> int:
     ctx = Ctx(world, cancel_at)
@@ -715,6 +779,7 @@ def evidence_extra(merged: dict) -> dict:
 HARNESSES = [
     Harness("adapter-endpoint", _h_adapter, weight=2, wall_limit=120.0),
     Harness("client", _h_client, weight=3, wall_limit=120.0),
+    Harness("udp-client", _h_udp_client, weight=1, wall_limit=120.0),
     Harness("server-client", _h_server_client, weight=2, wall_limit=120.0),
     Harness("tls", _h_tls, weight=4, wall_limit=180.0),
     Harness("stapled", _h_stapled, weight=2, wall_limit=180.0),
